@@ -355,12 +355,21 @@ class ImplWorld:
         if kw == 'gen':
             g = T.next(); v = T.next(); n = T.nat(); id = T.optname(); a = self.attr(T)
             c = V.get(v)
-            if g == 'simplex': r = k_simplex(n, id=id, attr=a, c=c)
-            elif g == 'void': r = k_void(n, c=c)
-            elif g == 'skeleton': r = k_skeleton(n, c=c)
-            elif g == 'ring': r = ring(n, c=c)
+            # arguments the script leaves out are left out of the call (the defaults are part of the API)
+            kw_ = {} if c is None else {'c': c}
+            if g == 'simplex':
+                if id is not None: kw_['id'] = id
+                if a is not None: kw_['attr'] = a
+                r = k_simplex(n, **kw_)
+            elif g == 'void': r = k_void(n, **kw_)
+            elif g == 'skeleton': r = k_skeleton(n, **kw_)
+            elif g == 'ring': r = ring(n, **kw_)
             else: raise ValueError(g)
-            V[v] = r; return None
+            if c is None:
+                V[v] = r; return None
+            # a target was given: it stays bound to v, and the generator returns that very complex
+            return None if r is c else 'result-is-not-the-target'
+
         if kw == 'lattice':
             w = T.next(); r = T.nat(); c = T.nat(); V[w] = TriangularLattice(r, c); return None
         if kw == 'add':
